@@ -29,11 +29,20 @@ type unmarshalOptions struct {
 }
 
 func (o unmarshalOptions) Options() proto.UnmarshalOptions {
+	// Hand the remaining recursion depth on to messages that are decoded
+	// through the public API (message-typed extensions, legacy messages).
+	// A zero RecursionLimit means "use the default", so an exhausted
+	// budget is passed as a negative limit, which rejects any message.
+	depth := o.depth
+	if depth <= 0 {
+		depth = -1
+	}
 	return proto.UnmarshalOptions{
 		Merge:          true,
 		AllowPartial:   true,
 		DiscardUnknown: o.DiscardUnknown(),
 		Resolver:       o.resolver,
+		RecursionLimit: depth,
 
 		NoLazyDecoding: o.NoLazyDecoding(),
 	}
